@@ -44,6 +44,8 @@ query I {
   }
 }
 """ % {"T": TYPE_REF}
+# the SAME selection on __type(name:): the answer must be the entry of __schema.types, whole
+TYPE_SELECTION = INTROSPECTION[INTROSPECTION.index("types {") + len("types {"):INTROSPECTION.index("    directives {")].rsplit("}", 1)[0]
 
 
 def decorate(rng, m):
@@ -283,10 +285,11 @@ def python_checks(m, sc, by_name_results):
         if n == "ZZUnknownType":
             if r is not None:
                 P.append("__type(name: unknown) is not null")
-        elif not entry or r is None or r.get("kind") != entry[0]["kind"] or \
-                [f["name"] for f in (r.get("fields") or [])] != [f["name"] for f in (entry[0].get("fields") or [])] or \
-                sorted(x["name"] for x in (r.get("possibleTypes") or [])) != sorted(x["name"] for x in (entry[0].get("possibleTypes") or [])):
-            P.append("__type(name: %s) disagrees with the entry of __schema.types" % n)
+        elif n.startswith("__"):
+            continue          # meta types: reported by name, not listed (the engine's own)
+        elif not entry or r is None or json.dumps(r, sort_keys=True) != json.dumps(entry[0], sort_keys=True):
+            P.append("__type(name: %s) disagrees with the entry of __schema.types: %s vs %s" % (
+                n, json.dumps(r, sort_keys=True)[:300], json.dumps(entry[0] if entry else None, sort_keys=True)[:300]))
     return P
 
 
@@ -318,9 +321,9 @@ def main(tier_, replay=None):
                     r = await eng.execute(INTROSPECTION)
                     names = [t["name"] for t in m["types"]][:6] + ["ZZUnknownType", "Int"]
                     by = {}
+                    names = [t["name"] for t in m["types"]] + ["ZZUnknownType", "Int", "Boolean", "__Type", "__Schema"]
                     for n in names:
-                        rr = await eng.execute('{ __type(name: "%s") { kind name fields(includeDeprecated: true) { name } '
-                                               'possibleTypes { name } } }' % n)
+                        rr = await eng.execute('{ __type(name: "%s") { %s } }' % (n, TYPE_SELECTION))
                         by[n] = (rr.get("data") or {}).get("__type")
                     return r, by
                 try:
